@@ -581,15 +581,16 @@ func (g *cstGen) file() cFile {
 }
 
 type cstStats struct {
-	Cases          int            `json:"cases"`
-	Nontrivial     int            `json:"distinct_nontrivial"`
-	Features       map[string]int `json:"layout_features"`
-	Stmts          map[string]int `json:"statements_per_file"`
-	Outcomes       map[string]int `json:"impl_outcomes"`
-	Samples        []string       `json:"samples"`
-	OracleFail     map[string]int `json:"oracle_failures"`
-	CommentItems   int            `json:"comment_and_docstring_items_checked_textually"`
-	UnicodeLayouts int            `json:"files_also_parsed_with_unicode_spaces_in_the_layout_implementation_only"`
+	Cases             int            `json:"cases"`
+	Nontrivial        int            `json:"distinct_nontrivial"`
+	Features          map[string]int `json:"layout_features"`
+	Stmts             map[string]int `json:"statements_per_file"`
+	Outcomes          map[string]int `json:"impl_outcomes"`
+	Samples           []string       `json:"samples"`
+	OracleFail        map[string]int `json:"oracle_failures"`
+	CommentItems      int            `json:"comment_and_docstring_items_checked_textually"`
+	UnicodeLayouts    int            `json:"files_also_parsed_with_unicode_spaces_in_the_layout_implementation_only"`
+	BlankDocAsComment int            `json:"blank_docstrings_read_as_blank_comments"`
 }
 
 func cstCmd(args []string) error {
@@ -686,7 +687,12 @@ func cstCmd(args []string) error {
 				}
 			}
 		}
-		if got != want {
+		// a task whose docstring is blank: "a blank comment, then the task without a docstring" is the same file read the other way
+		wantAlt := "T " + f.treeBlankDocsAsComments()
+		if got != want && got == wantAlt {
+			st.BlankDocAsComment++
+		}
+		if got != want && got != wantAlt {
 			st.OracleFail["C06"]++
 			fmt.Fprintf(bo, "C06 %s parsing the text written from this structure gives %s, the structure written is %s\n", hx(text), got, want)
 		}
@@ -743,6 +749,19 @@ func uniLayout(f cFile, r *rand.Rand) cFile {
 		g.stmts = append(g.stmts, s)
 	}
 	return g
+}
+
+// treeBlankDocsAsComments: the tree notation of the file with every blank docstring read as a free-standing blank comment
+func (f cFile) treeBlankDocsAsComments() string {
+	g := cFile{ws: f.ws}
+	for _, s := range f.stmts {
+		if s.kind == 'T' && s.hasDoc && strings.TrimSpace(s.doc) == "" {
+			g.stmts = append(g.stmts, cStmt{kind: 'C', text: s.doc})
+			s.hasDoc, s.doc = false, ""
+		}
+		g.stmts = append(g.stmts, s)
+	}
+	return g.tree()
 }
 
 func fieldsOf(resp string) []string { return strings.Split(strings.SplitN(resp, "\t", 2)[0], " ## ") }
